@@ -32,7 +32,7 @@ def bootstrap(argv=None):
         env = {}
         for k in ('VERIF_REPO', 'VERIF_SEED', 'VERIF_TIER', 'VERIF_SCRATCH', 'VERIF_WORKERS',
                   'TALLYSIM_HASHSEED', 'VERIF_BUDGET_S', 'VERIF_RUNS', 'VERIF_NO_KNOWN', 'VERIF_EVIDENCE_DIR', 'VERIF_REPLAY_DIR',
-                  'VERIF_SUBPASS', 'VERIF_RUN_OFFSET'):
+                  'VERIF_SUBPASS', 'VERIF_RUN_OFFSET', 'VERIF_MAX_REPORTED', 'VERIF_SHRINK_BUDGET', 'TALLYSIM_LOST_STDERR'):
             if k in os.environ:
                 env[k] = os.environ[k]
         env.update(FIXED_ENV)
